@@ -141,10 +141,17 @@ class Eval:
                 return None
             if short & {'as_ref', 'as_mut', 'cloned', 'copied', 'clone', 'take', 'as_deref'}:
                 return a0
+            if short & {'as_slice', 'as_mut_slice'}:
+                # the slice view of an Option has one element or none: its emptiness is the Option's absence
+                return ('optslice', a0) if a0 == 'None' or (isinstance(a0, tuple) and a0[0] == 'Some') else None
             if any(n.endswith('PartialEq>::eq') or n.endswith('PartialEq::eq') or n.endswith('PartialEq>::ne') or n.endswith('PartialEq::ne') for n in names) and len(args) == 2:
                 a1 = self.operand(args[1], depth)
                 r = self._opt_eq(a0, a1)
                 return r if r is None or not any(n.endswith('::ne') for n in names) else (not r)
+        if short & {'is_empty'} and args:
+            a0 = self.operand(args[0], depth)
+            if isinstance(a0, tuple) and a0[0] == 'optslice':
+                return a0[1] == 'None'
         if any(n.startswith('std::time::Duration::') for n in names) and args:
             a0 = self.operand(args[0], depth)
             if 'is_zero' in short and a0 in ('zero', 'nonzero'):
